@@ -60,10 +60,16 @@ CHECKS = {
          "single-thread virtual-time leg; logical clock at the client boundary; loss of a lock holder's connection is not driven yet", "DESIGN.md §3 C17", "rig+history"),
  "C12": ("exploration", "runtime monitoring: execution-log and id-echo oracle plus an exact linearizability check (unique-bit updates: chain + real-time order) over recorded call histories",
          "Held on N seeded histories of concurrent clients (local clones and clones on a second endpoint) against ServerRefMut and ServerSharedMut (spawn off/on): every returned result belonged to its own caller and to exactly one execution, call errors to at most one, the returned values were explained by a sequential order of the mutations respecting real-time order although the &mut method suspends between its read and its write, and acknowledged updates were in the final value.",
-         "virtual-time single-thread leg; remote function objects (rfn) and connection faults during calls are not driven yet", "DESIGN.md §3 C12", "rig+history"),
- "C19": ("exploration", "runtime monitoring: execution-log oracle (checkpoints after quiescence), served-afterwards probe and failing-call table over histories with abandoned calls",
-         "Held on N seeded histories in which 40% of the calls were abandoned after 0-7 polls and calls to an unknown method / with an oversize reply were injected from a newer-trait client: abandoned cancellable calls stopped at their next suspension point, abandoned #[no_cancel] mutations completed, a fresh &mut call was served afterwards, unknown-method calls failed only themselves - except the recorded known finding (an oversize reply ends serve()).",
+         "virtual-time single-thread leg; every fourth run drives RFn/RFnMut/RFnOnce (unsendable arguments, dropped providers, abandoned calls, connection cuts); connection faults during rtc calls are driven in C19", "DESIGN.md §3 C12 and §8", "rig+history"),
+ "C19": ("exploration", "runtime monitoring: execution-log oracle (checkpoints after quiescence and after the caller's drop), served-afterwards probe, failing-call table and watchdog livelock classification over histories with abandoned calls, large replies and cut connections",
+         "Held on N seeded histories in which 40% of the calls were abandoned after 0-7 polls and calls to an unknown method / with an oversize reply were injected from a newer-trait client: abandoned cancellable calls stopped at their next suspension point, abandoned #[no_cancel] mutations completed, a fresh &mut call was served afterwards, unknown-method calls failed only themselves, calls with 300-60000 byte replies abandoned mid-transmission and a client whose connection was cut during large replies left the server serving - except the recorded known finding (an oversize reply ends serve()).",
          "requests above the client's own request limit are documented to fail that client and are not judged; undecodable requests other than unknown methods are not driven", "DESIGN.md §3 C19", "rig+history"),
+ "C18": ("exploration", "runtime monitoring: byte-prefix, agreed-size and verdict oracle over write/flush/shutdown/read histories recorded at the AsyncWrite/AsyncRead boundary of rch::io channels",
+         "Held on N seeded streams (sized/unsized; lengths around chunk_size and receive_buffer; sender moved, receiver moved, both moved over different connections, sender moved in the middle of the stream; scripted write/flush/read sizes incl. empty and cancelled calls; shutdown, flush+drop, drop, short and over-long endings; connection cut at a random frame in 25%): bytes read were a prefix of bytes accepted, EOF was successful only at the agreed size, over-long writes were refused, short shutdowns failed, unfinished streams ended in errors, complete ones in EOF, nothing was pending at quiescence.",
+         "bytes of the last unflushed write are not judged (lower bound 'flushed'); all-local placement is not a supported use of rch::bin; max_data_size >= chunk_size on every endpoint", "DESIGN.md §3 C18 and §8", "rig+history"),
+ "C20": ("exploration", "runtime monitoring: self-identifying values with destruction counters (handles) and byte-equality oracle (lazy values/blobs) over random journeys through 2-4 endpoints with connection cuts during fetches",
+         "Held on N seeded journeys: handle accesses succeeded only on the creating endpoint, at the original type, before into_inner, and yielded exactly their own value; every access elsewhere, through a cast or after the take was an error; values were destroyed exactly once after all handles (or provider plus home handles) were gone and never earlier; Lazy/LazyBlob fetched after 1-4 forwards equalled what was provided, failed after the provider was dropped, and across a cut connection were errors or the exact value, never a prefix.",
+         "whether a handle returning over a different connection or as a second remote clone resolves is recorded, not judged", "DESIGN.md §3 C20 and §8", "rig+history"),
 }
 
 NOT_YET = "check not yet implemented in this commit (DESIGN.md §6a gives the order of implementation)"
